@@ -1,6 +1,7 @@
 import MicroHttp.Props.C12
 import MicroHttp.Props.C12Pop
 import MicroHttp.Props.Tables
+import MicroHttp.Props.C12Srv
 #print axioms MicroHttp.C12.first_completer
 #print axioms MicroHttp.C12.eof_keeps
 #print axioms MicroHttp.C12.failed_read_keeps
@@ -11,3 +12,10 @@ import MicroHttp.Props.Tables
 #print axioms MicroHttp.Tables.no_shared_state
 #print axioms MicroHttp.Tables.no_interior_mutability
 #print axioms MicroHttp.Tables.conn_new
+#print axioms MicroHttp.C12Srv.client_write_keeps
+#print axioms MicroHttp.C12Srv.respond_keeps
+#print axioms MicroHttp.C12Srv.respondMany_keeps
+#print axioms MicroHttp.C12Srv.out_event_keeps
+#print axioms MicroHttp.C12Srv.flush_keeps
+#print axioms MicroHttp.C12Srv.output_side_keeps_inputs
+#print axioms MicroHttp.C12Srv.pending_descriptors_survive_output
